@@ -60,7 +60,7 @@ def explore(col, V, body, features, make_replay, label, timeout_ms=30000, kind='
             if len(item) > 2:
                 f.update(item[2])
             f['claim'] = name
-            st, m = eng.prove(claim, pc=p.pc, label=label + ':' + name)
+            st, m = eng.prove(claim, pc=p.pc, label=label + ':' + name, extra=p.facts)
             if st == 'unsat':
                 continue
             if st == 'unknown':
